@@ -335,3 +335,73 @@ def impl_stream_objs(data):
         return out
     except Exception as e:  # noqa
         return [f"O crash {type(e).__name__}"]
+
+
+# --------------------------------------------------------------------------- front-ends
+def impl_front(which, text):
+    """byte stream a front-end extracts from `text` (bytes): 'F ok <hex>' | 'F ValueError <hex yielded before>'"""
+    import importlib
+    if which == "auto":
+        am = importlib.import_module("tpmstream.io.auto.marshal")
+        try:
+            g = am.detect_format_and_yield_buffer(text, strict=False)
+            return [f"F {next(g)}"]
+        except IOError:
+            return ["F IOError"]
+        except Exception as e:  # noqa
+            return [f"F crash {type(e).__name__}"]
+    mod = importlib.import_module("tpmstream.io.hex.marshal" if which == "hex" else "tpmstream.io.swtpm_log.marshal")
+    out = []
+    try:
+        for b in mod.parse_hex_string(text):
+            out.append(b)
+        return [f"F ok {bytes(out).hex() or '-'}"]
+    except ValueError:
+        try:
+            return [f"F ValueError {bytes(out).hex() or '-'}"]
+        except ValueError:
+            return ["F ValueError ?negative-byte"]
+    except Exception as e:  # noqa
+        return [f"F crash {type(e).__name__}"]
+
+
+def make_pcapng(payloads, link="ip"):
+    """a pcapng capture whose packets carry the given TPM payloads (IP/TCP like tpm2-tss tcti-pcap, or Ethernet)"""
+    import io
+    import dpkt
+    f = io.BytesIO()
+    w = dpkt.pcapng.Writer(f, linktype=dpkt.pcap.DLT_RAW if link == "ip" else dpkt.pcap.DLT_EN10MB)
+    for i, p in enumerate(payloads):
+        tcp = dpkt.tcp.TCP(sport=2321, dport=40000 + (i % 100), seq=i, data=bytes(p))
+        ip = dpkt.ip.IP(src=b"\x7f\x00\x00\x01", dst=b"\x7f\x00\x00\x01", p=dpkt.ip.IP_PROTO_TCP, data=tcp)
+        ip.len = 20 + len(tcp)
+        pkt = bytes(ip) if link == "ip" else bytes(dpkt.ethernet.Ethernet(data=ip))
+        w.writepkt(pkt, ts=1.0 + i)
+    return f.getvalue()
+
+
+def impl_events_via(front, data, tname="Stream", cc=None, mode="S"):
+    """events (canonical, without pull counts) of decoding container bytes `data` through a front-end"""
+    import importlib
+    cls = {"hex": ("tpmstream.io.hex", "Hex"), "swtpm": ("tpmstream.io.swtpm_log", "SWTPMLog"),
+           "pcapng": ("tpmstream.io.pcapng", "Pcapng"), "auto": ("tpmstream.io.auto", "Auto"),
+           "binary": ("tpmstream.io.binary", "Binary")}[front]
+    F = getattr(importlib.import_module(cls[0]), cls[1])
+    tp = resolve_type(tname)
+    kw = dict(tpm_type=tp, buffer=bytes(data), abort_on_error=(mode == "S"))
+    if cc is not None:
+        kw["command_code"] = TPM_CC(cc)
+    lines = []
+    try:
+        for ev in F.marshal(**kw):
+            lines.append(event_line(ev, 0) if isinstance(ev, MarshalEvent) else "W " + err_str(ev.error))
+        lines.append("R end")
+    except (ConstraintViolatedError, InputStreamBytesDepletedError, InputStreamSuperfluousBytesError) as e:
+        lines.append(f"R {type(e).__name__}")
+    except ValueError as e:
+        lines.append("R ValueError")
+    except IOError as e:
+        lines.append("R IOError")
+    except Exception as e:  # noqa
+        lines.append(f"R crash {type(e).__name__}")
+    return lines
